@@ -257,7 +257,7 @@ fn oracle_suite<S: ShortGroupSignatureScheme>(em: &mut Emitter, rng: &mut Rng, s
 /// single message changed, exchanges with the last positions, and a proof of knowledge over a random partition with the
 /// first / last revealed and hidden positions changed
 fn wide_suite<S: ShortGroupSignatureScheme>(em: &mut Emitter, rng: &mut Rng, suite: &str) {
-    let ns: Vec<usize> = if em.thorough() { vec![31, 32, 33, 63, 64, 65, 100, 126, 127, 128] } else { vec![33, 65, 127, 128] };
+    let ns: Vec<usize> = if em.thorough() { vec![31, 32, 33, 63, 64, 65, 100, 126, 127, 128, 129, 255, 256, 257, 300, 513] } else { vec![33, 65, 127, 128, 257] };
     for n in ns {
         let keys = call(|| S::new_keys(NonZeroUsize::new(n).unwrap(), rng.chacha()));
         let (pk, sk) = match keys {
@@ -267,6 +267,23 @@ fn wide_suite<S: ShortGroupSignatureScheme>(em: &mut Emitter, rng: &mut Rng, sui
                 continue;
             }
         };
+        // one generator per position, all different, over the whole key
+        {
+            let kv = serde_json::to_value(&pk).unwrap_or_default();
+            for field in ["y", "y_blinds"] {
+                if let Some(a) = kv[field].as_array() {
+                    let mut seen: std::collections::BTreeMap<&str, usize> = std::collections::BTreeMap::new();
+                    for (i, x) in a.iter().enumerate() {
+                        if let Some(t) = x.as_str() {
+                            if let Some(j) = seen.insert(t, i) {
+                                em.violation("key-generators-repeat", format!("{}: generators {} and {} of a fresh key of capacity {} ({}) are equal: the positions are interchangeable", suite, j, i, n, field), json!({"suite": suite, "n": n}));
+                                break;
+                            }
+                        }
+                    }
+                }
+            }
+        }
         let msgs = msg_vector(rng, n);
         em.oracle_case(&format!("{} wide n={}", suite, n));
         em.count(&format!("{}:wide", suite));
@@ -290,7 +307,15 @@ fn wide_suite<S: ShortGroupSignatureScheme>(em: &mut Emitter, rng: &mut Rng, sui
                 break;
             }
         }
-        for (i, j) in [(0usize, n - 1), (n - 2, n - 1), (n / 2, n - 1), (0, 1)] {
+        let mut pairs = vec![(0usize, n - 1), (n - 2, n - 1), (n / 2, n - 1), (0, 1)];
+        if n > 256 {
+            pairs.push((0, 256));
+            pairs.push((n - 257, n - 1));
+        }
+        if n > 128 {
+            pairs.push((0, 128));
+        }
+        for (i, j) in pairs {
             if i == j || msgs[i] == msgs[j] {
                 continue;
             }
